@@ -535,10 +535,16 @@ def check_c14(tier):
     n = 40 * (1 if tier == "quick" else 40)
     insts = gen_instances(sc.rng, n, "plain")
     insts += [gen_relaxed_improves(sc.rng.fork()) for _ in range(30 if tier == "quick" else 300)]
+    # warm starts of the CACHING solvers on re-converging instances: with an incumbent close to the optimum from the first diagram on, cut-set nodes whose
+    # local bound does not beat it get their thresholds from the pruned-children branch of _compute_thresholds
+    n_plain = len(insts)
+    insts += gen_instances(sc.rng, 45 if tier == "quick" else 450, "reconv")
     enums = oracle_batch([(I.line(), ["O opt", "O enum 0 %d 1 %d" % (I.initval, I.init)]) for I in insts])
     blocks = []; metas = []
-    cfgs = [(0, 0, 0, 1, 0), (1, 0, 1, 2, 0), (0, 1, 1, 1, 0), (2, 0, 0, 1, 0), (1, 1, 0, 3, 0)]
-    for I, en in zip(insts, enums):
+    cfgs_plain = [(0, 0, 0, 1, 0), (1, 0, 1, 2, 0), (0, 1, 1, 1, 0), (2, 0, 0, 1, 0), (1, 1, 0, 3, 0)]
+    cfgs_cache = [(0, 1, 0, 2, 0), (0, 1, 1, 1, 0), (1, 1, 0, 2, 0), (2, 1, 1, 2, 0), (1, 1, 1, 1, 0)]
+    for k, (I, en) in enumerate(zip(insts, enums)):
+        cfgs = cfgs_plain if k < n_plain else cfgs_cache
         opt = en[0]
         lines = [I.line()]; meta = []
         if opt != "none":
@@ -615,6 +621,33 @@ def check_c14(tier):
             if m: sc.chk.violation("property", "parallel solver: solution returned with a warm start does not replay to %d: %s" % (want, m), ctx)
             if len(sq) >= 2 and sq[0][0] == opt and sq[1][0] <= sq[0][0] and dec_list(f.get("sol")) == sorted(sq[1][1]) and sorted(sq[1][1]) != sorted(sq[0][1]):
                 sc.chk.violation("property", "parallel set_primal replaced the incumbent although the new value %d is not strictly greater than %d" % (sq[1][0], sq[0][0]), ctx)
+    if sc.dis and not any(v[0] == "property" for v in sc.chk.violations):
+        # the correspondence broke but every clause held so far: widen the search for a concrete failing warm start (many more re-converging instances,
+        # every flavour with and without the cache, primals = the optimum and the three best sub-optimal values)
+        wr = Rng(sc.chk.seed + 1477)
+        winsts = gen_instances(wr, 300 if tier == "quick" else 1500, "reconv") + [gen_topmerge(wr.fork()) for _ in range(900 if tier == "quick" else 4500)]
+        wen = oracle_batch([(I.line(), ["O opt", "O enum 0 %d 1 %d" % (I.initval, I.init)]) for I in winsts])
+        wblocks = []; wmeta = []
+        for I, en in zip(winsts, wen):
+            lines = [I.line()]; meta = []
+            if en[0] != "none":
+                items = [(dec_list(it.rpartition(":")[0]), int(it.rpartition(":")[2])) for it in en[1].split()]
+                byval = {}
+                for s_, v in items: byval.setdefault(v, s_)
+                vals = sorted(byval, reverse=True)
+                for pv in dict.fromkeys(vals[:3] + vals[-1:]):
+                    for (flv, cache, fr, w) in ((0, 1, 0, 2), (0, 1, 1, 1), (1, 1, 0, 2), (2, 1, 1, 2), (1, 1, 1, 1), (2, 1, 0, 1), (0, 0, 0, 2), (0, 1, 0, 3)):
+                        lines.append(sline(0, 1, 1, flv, cache, fr, w, 0, 0, primal=[(pv, sorted(byval[pv]))])); meta.append(pv)
+            wblocks.append(lines); wmeta.append(meta)
+        wimpl = run_blocks("impl", wblocks, "C14w")
+        nw = 0
+        for I, blk, il, en, meta in zip(winsts, wblocks, wimpl, wen, wmeta):
+            for case, li, pv in zip(blk[1:], il, meta):
+                nw += 1; f = kv(li); want = max(pv, int(en[0]))
+                if "CRASH" in f or "HANG" in f or f.get("x") != "1" or f.get("bv") != str(want):
+                    sc.chk.violation("property", "widened search: with feasible primal %d the solver returns %s (exact=%s); expected max(primal, optimum) = %d"
+                                     % (pv, f.get("bv"), f.get("x"), want), describe(I, case, li, None, optimum=en[0], primal=pv))
+        sc.stats["widened_search_runs"] = nw
     return sc.finish(RULE + "; primal = (value, witness solution) taken from the specification's enumeration: optimum, best sub-optimal, worst",
                      "Warm-start runs compared with max(primal, optimum) from exhaustive enumeration and with the Coq solver model started from set_primal.",
                      ["cache / dominance / pooled configurations: correspondence + oracle only"])
@@ -677,6 +710,22 @@ def check_c15(tier):
     sc.stats["diagram_level_store_stream"] = {"compilations": sum(len(r) for _, r in res), "agreements": ag, "disagreements": len(ds)}
     for (I, meta, li, lm, case, why) in ds[:10]:
         sc.dis.append((I, case, li[:1200], lm[:1200], "diagram-level (pooled, long arcs, shared stores) " + str(why)))
+    if sc.dis and not any(v[0] == "property" for v in sc.chk.violations):
+        # the correspondence broke but every clause held so far: widen the search for a concrete failing input (many more long-arc instances,
+        # pooled solvers only; hangs of the known class D1 are not failing inputs of a NEW defect and are skipped)
+        winsts = gen_instances(Rng(sc.chk.seed + 1577), 1500 if tier == "quick" else 6000, "longarc")
+        wblocks = [[I.line()] + [sline(0, 1, 1, 2, cache, fr, w, 0, 0) for cache in (0, 1) for fr in (0, 1) for w in (1, 2, 3)] for I in winsts]
+        wimpl = run_blocks("impl", wblocks, "C15w")
+        wopts = oracle_batch([(I.line(), ["O opt"]) for I in winsts])
+        nw = 0
+        for I, blk, il, op in zip(winsts, wblocks, wimpl, wopts):
+            for case, li in zip(blk[1:], il):
+                nw += 1; f = kv(li)
+                if "HANG" in f: continue
+                if "CRASH" in f or f.get("x") != "1" or f.get("bv") != op[0]:
+                    sc.chk.violation("property", "widened search: pooled solver returns %s (exact=%s) on a long-arc model, optimum is %s (%s)"
+                                     % (f.get("bv"), f.get("x"), op[0], case), describe(I, case, li, optimum=op[0]))
+        sc.stats["widened_search_runs"] = nw
     return sc.finish("depth-free table models with random irrelevance patterns (a neutral default decision on irrelevant (variable, state) pairs), widths 1..3, "
                      "cache on/off, both fringes; pooled solver vs plain solver (every state expanded on every variable) vs exhaustive enumeration; "
                      "non-trivial = distinct pooled run",
